@@ -4,8 +4,9 @@
    stream header (what stanza.InitStream returns), [secret] the shared secret. *)
 From Coq Require Strings.String.
 From Coq Require Import List NArith Bool.
-From XV Require Import Lib.Sx Model.Sha1 Model.Hex Model.Component
-  Proofs.Sha1P Proofs.HexP Proofs.ComponentP.
+From XV Require Import Lib.Sx Model.XmlTree Model.Parser Model.Sha1 Model.Hex Model.Component
+  Model.StreamHeader Model.ComponentWire
+  Proofs.Sha1P Proofs.HexP Proofs.ComponentP Proofs.ComponentWireP.
 Import Coq.Strings.String.StringSyntax.   (* string literals for the vectors only *)
 Import ListNotations.
 Open Scope N_scope.
@@ -26,10 +27,9 @@ Theorem C16_digest_xml_safe : forall id secret : str,
   Forall (fun c => c <> 60 /\ c <> 38 /\ c <> 62 /\ c <> 34 /\ c <> 39) (handshake id secret).
 Proof. exact digest_xml_safe. Qed.
 
-(* The digest is hex (SHA-1 (id ++ secret)): id first, secret second. *)
-Theorem C16_digest_def : forall id secret : str,
-  handshake id secret = hex (sha1 (id ++ secret)).
-Proof. exact digest_def. Qed.
+(* [handshake id secret] IS hex (sha1 (id ++ secret)) by definition (Model/Component.v): id
+   first, secret second; one instance of the order is in the vectors below, the statement
+   from the header bytes is C16_digest_from_header_bytes. *)
 
 (* Once the stream header has been read and the write succeeds, exactly one thing is
    written: "<handshake>" ++ digest ++ "</handshake>" ... *)
@@ -44,27 +44,78 @@ Theorem C16_element_text : forall id secret : str,
   parse_handshake_element (handshake_element id secret) = Some (handshake id secret).
 Proof. exact parse_handshake_element_digest. Qed.
 
-(* One component value connecting several times (reconnection): on the k-th connection
-   the digest is hex (SHA-1 (id_k ++ secret)) - a function of that connection's stream
-   id and the secret only, whatever was hashed on earlier connections ... *)
-Theorem C16_digest_per_connection : forall (secret : str) (ids : list str) (k : nat) (id : str),
-  nth_error ids k = Some id ->
-  nth_error (handshakes secret ids) k = Some (hex (sha1 (id ++ secret))).
-Proof. exact handshakes_nth. Qed.
+(* ---- the stream id: from the BYTES of the server's stream header ----
+   [init_stream hdr] (Model/StreamHeader.v) is encoding/xml's reading of the first start tag
+   followed by InitStream's attribute loop; [None] = InitStream returns an error. *)
 
-(* ... and what is written on the k-th connection is exactly the element for id_k. *)
-Theorem C16_written_per_connection :
-  forall (secret : str) (es : list env) (k : nat) (e : env) (id : str),
-  nth_error es k = Some e -> e_pre e = PConnected id -> e_write_ok e = true ->
-  exists r, nth_error (component_sessions secret es) k = Some r /\
-            r_written r = [open_tag ++ hex (sha1 (id ++ secret)) ++ close_tag].
-Proof. exact sessions_written_nth. Qed.
+(* Only an UNQUALIFIED id attribute counts; among several the LAST one wins; without one the
+   stream id is the empty string. *)
+Theorem C16_stream_id_unqualified_last : forall (attrs : list rattr) (v : str),
+  stream_id attrs = v <->
+  (v = [] /\ no_unqualified_id attrs = true) \/
+  (exists pre a post, attrs = pre ++ a :: post /\ unqualified_id a = true /\
+                      ra_value a = v /\ no_unqualified_id post = true).
+Proof. exact stream_id_spec. Qed.
 
-(* Each connection is classified as a first connection would be. *)
-Theorem C16_sessions_independent : forall (secret : str) (es : list env) (k : nat) (e : env),
-  nth_error es k = Some e ->
-  nth_error (component_sessions secret es) k = Some (component_connect secret e).
-Proof. exact sessions_nth. Qed.
+(* unqualified = no prefix and local name "id": xml:id, x:id, xmlns:id are not *)
+Theorem C16_unqualified_id : forall a : rattr,
+  unqualified_id a = true <-> ra_prefix a = [] /\ ra_local a = StreamHeader.s_id.
+Proof. exact unqualified_id_spec. Qed.
+
+(* A qualified look-alike, wherever it stands among the attributes, changes nothing. *)
+Theorem C16_stream_id_ignores_qualified : forall (pre : list rattr) (a : rattr) (post : list rattr),
+  unqualified_id a = false -> stream_id (pre ++ a :: post) = stream_id (pre ++ post).
+Proof. exact stream_id_ignores_qualified. Qed.
+
+(* Header bytes -> wire: whenever InitStream accepts the header with stream id [id] and the
+   write succeeds, what is written is exactly <handshake> hex(SHA-1(id ++ secret)) </handshake>,
+   whatever the server then replies. *)
+Theorem C16_digest_from_header_bytes : forall (secret hdr id : str) (reply_toks : list token),
+  init_stream hdr = Some id ->
+  r_written (connect_from_wire secret hdr true reply_toks)
+  = [open_tag ++ hex (sha1 (id ++ secret)) ++ close_tag].
+Proof. exact written_from_header. Qed.
+
+(* A header InitStream rejects: permanent error, state PermanentError, nothing written. *)
+Theorem C16_header_refused : forall (secret hdr : str) (w : bool) (reply_toks : list token),
+  init_stream hdr = None ->
+  let r := connect_from_wire secret hdr w reply_toks in
+  r_err r = ErrConn true /\ r_state r = PermanentErrorState /\ r_recv r = false /\ r_written r = [].
+Proof. exact header_refused. Qed.
+
+(* "For every stream id": every attribute-legal text [s] (any bytes but control characters
+   other than TAB LF CR: special characters, non-ASCII, empty, any length), written into the
+   header with the predefined entities, is the id InitStream returns ... *)
+Theorem C16_every_id_text_read_back : forall (q : N) (s : str),
+  is_quote q -> id_text s = true -> init_stream (std_header q s) = Some s.
+Proof. exact init_stream_std_header. Qed.
+
+(* ... hence the digest sent is that of this very text followed by the secret. *)
+Theorem C16_every_id_text_digest : forall (q : N) (s secret : str) (reply_toks : list token),
+  is_quote q -> id_text s = true ->
+  r_written (connect_from_wire secret (std_header q s) true reply_toks)
+  = [open_tag ++ hex (sha1 (s ++ secret)) ++ close_tag].
+Proof.
+  intros q s secret toks Hq Hs. apply written_from_header. apply init_stream_std_header; assumption.
+Qed.
+
+(* ---- SHA-1 really hashes the whole of id ++ secret ----
+   The block decomposition is fuel-driven; the fuel is always sufficient: the k blocks that
+   [sha1_state] folds [compress] over are whole, and written back as bytes they are the
+   message itself followed by the padding (0x80, zeros, 64-bit bit length) - no byte of the
+   message is dropped, whatever its length. *)
+Theorem C16_sha1_consumes_whole_message : forall m : str,
+  Forall byte m ->
+  exists k,
+    length (blocks (pad m)) = k /\ length (pad m) = (64 * k)%nat /\
+    Forall (fun b => length b = 16%nat) (blocks (pad m)) /\
+    flat_map word_bytes (concat (blocks (pad m)))
+      = m ++ 128 :: zeros (pad_zeros (N.of_nat (length m)))
+            ++ be_bytes 8 (bitlen64 (N.of_nat (length m))).
+Proof. exact sha1_blocks_cover. Qed.
+
+Theorem C16_sha1_at_least_one_block : forall m : str, blocks (pad m) <> [].
+Proof. exact sha1_at_least_one_block. Qed.
 
 (* SHA-1 is specified by its own model; FIPS 180 vectors (one, one, two, three and
    sixteen blocks), the repository's own test value, and the argument order. *)
@@ -86,11 +137,6 @@ Proof.
     handshake_order_matters)))))).
 Qed.
 
-(* The 32-bit word arithmetic of the SHA-1 model is arithmetic modulo 2^32. *)
-Theorem C16_words_mod_2_32 : forall x y : N,
-  trunc32 x = x mod 2 ^ 32 /\ add32 x y = (x + y) mod 2 ^ 32.
-Proof. intros x y. split; [exact (trunc32_mod x) | exact (add32_mod x y)]. Qed.
-
 (* Header read, handshake written: Connect returns nil AND the state is Established
    AND the receive loop runs  <->  the server's reply is a handshake element. *)
 Theorem C16_established_iff_handshake : forall (secret : str) (e : env) (id : str),
@@ -100,14 +146,14 @@ Theorem C16_established_iff_handshake : forall (secret : str) (e : env) (id : st
 Proof. exact established_iff_handshake. Qed.
 
 (* Over every environment (transport failures and write failure included) each single
-   observation - nil error, state Established, receive loop started, a later stanza
-   routed - is equivalent to: header read, write succeeded, reply is a handshake. *)
+   observation - nil error, state Established, receive loop started - is equivalent to:
+   header read, write succeeded, reply is a handshake.  ("Stanzas are routed" is what the
+   receive loop does, C05/C12; here it is observed by the harness's probe, not proved.) *)
 Theorem C16_established_iff_success : forall (secret : str) (e : env),
   let r := component_connect secret e in
   (r_err r = ErrNil <-> success e = true) /\
   (r_state r = Established <-> success e = true) /\
-  (r_recv r = true <-> success e = true) /\
-  (probe_routed r = true <-> success e = true).
+  (r_recv r = true <-> success e = true).
 Proof. exact established_iff_success. Qed.
 
 (* Every other run ends in an error, a non-established state and no receive loop. *)
@@ -150,10 +196,46 @@ Theorem C16_transport_failure : forall (secret : str) (e : env),
   r_err r = ErrConn true /\ r_state r = PermanentErrorState /\ r_recv r = false.
 Proof. exact transport_failure. Qed.
 
-(* Exactly one event reaches the handler; it carries the state Connect leaves behind. *)
+(* Exactly one event reaches the handler: it carries the state Connect leaves behind, and
+   its StreamError text is "conflict" exactly on the stream-error branch, empty otherwise. *)
 Theorem C16_one_event : forall (secret : str) (e : env),
-  exists s, r_events (component_connect secret e) = [(r_state (component_connect secret e), s)].
-Proof. exact one_event. Qed.
+  r_events (component_connect secret e) = [(r_state (component_connect secret e), event_text e)].
+Proof. exact one_event_exact. Qed.
+
+(* ---- which reply is "a handshake element": on the tokens NextPacket reads ---- *)
+(* The reply is a handshake exactly when the next start element NextXmppToken finds is
+   <handshake> in jabber:component:accept and that element is complete - whatever its
+   attributes and content.  (So <handshake xmlns='jabber:client'/>, any other element, the
+   stream's end tag, or nothing at all, are not.) *)
+Theorem C16_handshake_element_only : forall ts : list token,
+  reply_from_tokens ts = RHandshake <->
+  exists a r r', next_token ts = Some (TStart handshake_name a, r) /\ skip r = Some r'.
+Proof. exact reply_handshake_iff. Qed.
+
+(* From the wire: header accepted, handshake written; then nil error AND state Established
+   AND receive loop started  <->  the reply is such an element. *)
+Theorem C16_established_iff_handshake_element :
+  forall (secret hdr id : str) (toks : list token),
+  init_stream hdr = Some id ->
+  let r := connect_from_wire secret hdr true toks in
+  (r_err r = ErrNil /\ r_state r = Established /\ r_recv r = true) <->
+  exists a rest rest', next_token toks = Some (TStart handshake_name a, rest) /\ skip rest = Some rest'.
+Proof. exact established_iff_handshake_element. Qed.
+
+(* The stream's end tag is a packet (falls to the default branch), silence/close an error. *)
+Theorem C16_stream_end_and_silence : forall ts : list token,
+  (forall n r, next_token ts = Some (TEnd n, r) -> reply_from_tokens ts = ROther 12) /\
+  (next_token ts = None -> reply_from_tokens ts = RReadError).
+Proof. intros ts. split; [intros n r; exact (stream_end_is_other ts n r) | exact (no_reply_is_error ts)]. Qed.
+
+(* The outcome has no input besides (transport outcome, write outcome, reply) and the
+   secret - nothing is carried over from an earlier connection.  This is the form of the
+   model; that the code has it (fresh hasher per call, fresh transport per Resume) is
+   established by the differential runs on one Component value (digest-seq, reconnect). *)
+Theorem C16_no_hidden_input : forall (secret : str) (e1 e2 : env),
+  e_pre e1 = e_pre e2 -> e_write_ok e1 = e_write_ok e2 -> e_reply e1 = e_reply e2 ->
+  component_connect secret e1 = component_connect secret e2.
+Proof. exact no_hidden_input. Qed.
 
 (* non-vacuity: the hypotheses of the reply theorems are met by a run with a non-empty
    id containing an (unescaped) ampersand, and its outcome is the established one *)
@@ -166,17 +248,23 @@ Example C16_example :
       [(Established, [])].
 Proof. vm_compute. repeat split. Qed.
 
+(* non-vacuity of the header theorems: a header with qualified look-alikes before and after
+   the unqualified id, an escaped value, double quotes; and a reply that is a handshake *)
+Example C16_example_header :
+  init_stream (bytes_of "<?xml version='1.0'?><stream:stream xml:id='L' xmlns:x='urn:x' x:id='X' xmlns='jabber:component:accept' id=""a&amp;b&#x3C;&#233;"" xmlns:stream='http://etherx.jabber.org/streams' y:id=''>")
+  = Some [97; 38; 98; 60; 195; 169] /\
+  init_stream (std_header 39 [97; 38; 39; 34; 13; 200]) = Some [97; 38; 39; 34; 13; 200] /\
+  is_quote 39 /\ id_text [97; 38; 39; 34; 13; 200] = true /\
+  reply_from_tokens [TText [10]; TStart handshake_name [] ; TText [111]; TEnd handshake_name] = RHandshake /\
+  reply_from_tokens [TStart (bytes_of "jabber:client", bytes_of "handshake") []; TEnd (bytes_of "jabber:client", bytes_of "handshake")] = RReadError.
+Proof. vm_compute. repeat split; right; reflexivity. Qed.
+
 Print Assumptions C16_digest_shape.
 Print Assumptions C16_digest_lower_case.
 Print Assumptions C16_digest_xml_safe.
-Print Assumptions C16_digest_def.
 Print Assumptions C16_written_def.
 Print Assumptions C16_element_text.
-Print Assumptions C16_digest_per_connection.
-Print Assumptions C16_written_per_connection.
-Print Assumptions C16_sessions_independent.
 Print Assumptions C16_fips180_vectors.
-Print Assumptions C16_words_mod_2_32.
 Print Assumptions C16_established_iff_handshake.
 Print Assumptions C16_established_iff_success.
 Print Assumptions C16_failure_not_established.
@@ -185,3 +273,16 @@ Print Assumptions C16_other_reply.
 Print Assumptions C16_write_failure.
 Print Assumptions C16_transport_failure.
 Print Assumptions C16_one_event.
+Print Assumptions C16_stream_id_unqualified_last.
+Print Assumptions C16_unqualified_id.
+Print Assumptions C16_stream_id_ignores_qualified.
+Print Assumptions C16_digest_from_header_bytes.
+Print Assumptions C16_header_refused.
+Print Assumptions C16_every_id_text_read_back.
+Print Assumptions C16_every_id_text_digest.
+Print Assumptions C16_sha1_consumes_whole_message.
+Print Assumptions C16_sha1_at_least_one_block.
+Print Assumptions C16_handshake_element_only.
+Print Assumptions C16_established_iff_handshake_element.
+Print Assumptions C16_stream_end_and_silence.
+Print Assumptions C16_no_hidden_input.
